@@ -110,7 +110,7 @@ def var_value(t):
         return var_value(t["of"])
     if t["k"] == "list":
         return [var_value(t["of"])]
-    return {"Int": 3, "String": "s", "Boolean": True}.get(t["n"], 1)
+    return {"Int": 3, "String": "s", "Boolean": True, "In": {"y": 1}}.get(t["n"], 1)
 
 
 def compare(data, shape, path="data"):
@@ -212,6 +212,8 @@ def _worker_a(cases):
             out.setdefault("sound/accepted-cyclic/%s" % label, ["accepted document has a fragment cycle", wit])
             continue
         for op, sh in zip(ops, shapes):
+            if op["op"] == "subscription":
+                continue  # subscriptions are executed by subscribe() (C17)
             for conc in ("Obj", "Obj2"):
                 amb = ambiguous(sh[conc])
                 if amb:
